@@ -138,8 +138,10 @@ func (er *EpidemicRouting) DispatchingAllowed(bp BundleDescriptor) bool {
 	css, _ := er.clasForBundle(bp, false)
 
 	if len(css) == 0 {
-		bi.Pending = true
-		if err := er.c.store.Update(bi); err != nil {
+		// Keep the bundle pending for the next peer. This must be expressed as a constraint: the pending flag is
+		// recalculated from the constraints on each synchronization, e.g., when a duplicate of this bundle arrives.
+		bp.AddConstraint(Contraindicated)
+		if err := bp.Sync(); err != nil {
 			log.WithFields(log.Fields{
 				"error": err,
 			}).Warn("Updating BundleItem failed")
